@@ -520,3 +520,29 @@ pub fn ep_invariant_lemma() {
     }
     vcover!(n.ep < 8, "recorded e.p. file reachable");
 }
+
+/// WHOLE Game::get_moves (no slice) against abstract callees -- the frame half of "asking for the move
+/// list never alters any observable" (C03): with the piece generator emitting nothing, whatever
+/// is_targeted answers and in both modes, every field of the game (board, caches, hash, score, side,
+/// king cache, state stack) is exactly as before and the list is empty.  Statements of get_moves that
+/// lie BETWEEN the sliced regions are executed here too.
+#[cfg(kani)]
+pub fn get_moves_frame_contract() {
+    let mut g = mk::sym_game(1, nd::bool());
+    let verify_king = nd::bool();
+    let j = mk::sym_sq();
+    let mut moves: ArrayVec<Move, 256> = ArrayVec::new();
+    let ans = [nd::bool(), nd::bool(), nd::bool(), nd::bool()];
+    unsafe { fblk::ANS = ans; fblk::ASKED = 0; fblk::BALANCE = 0; fblk::BAD = false; genblk::MASK = 0; genblk::DUP = false; genblk::ARGS_OK = true; }
+    let (hash0, score0, side0, kp0, len0) = (g.hash, g.score, g.current_player, g.king_positions, g.state.len());
+    let (bj, phj, psj) = (g.board[j], g.past_hashes[j], g.past_scores[j]);
+    let (top0, below0) = (gs_bits(&g), super::super::gamestate::verif_gamestate::bits(g.state[0]));
+    g.get_moves(&mut moves, verify_king);
+    assert!(moves.is_empty(), "get_moves produced moves although the piece generator emitted none");
+    assert!(g.hash == hash0 && g.score == score0 && g.current_player == side0 && g.king_positions == kp0, "C03: asking for the move list changed hash / score / side / king cache");
+    assert!(g.state.len() == len0 && gs_bits(&g) == top0 && super::super::gamestate::verif_gamestate::bits(g.state[0]) == below0,
+            "C03: asking for the move list changed the castling / en-passant state of the game");
+    assert!(g.board[j] == bj && g.past_hashes[j] == phj && g.past_scores[j] == psj, "C03: asking for the move list changed the board or a cached square value");
+    assert!(unsafe { fblk::BALANCE == 0 && !fblk::BAD }, "C03: get_moves left a move played");
+    vcover!(verify_king, "checked mode reachable");
+}
